@@ -97,11 +97,13 @@ type tarEntry struct {
 }
 
 type tarSpec struct {
-	entries []tarEntry                     // in archive order
-	files   map[string]tarEntry            // logical regular files
-	dirs    map[string]*hackpadfs.FileMode // logical directories: explicit ones carry their mode, implicit ones nil
-	escape  string                         // an escaping header name, if any
-	root    *hackpadfs.FileMode            // permission bits of an explicit entry for the root itself, if there is one
+	entries    []tarEntry                     // in archive order
+	files      map[string]tarEntry            // logical regular files
+	dirs       map[string]*hackpadfs.FileMode // logical directories: explicit ones carry their mode, implicit ones nil
+	escape     string                         // an escaping header name, if any
+	escape2    string                         // a second one, written last
+	escapeLate bool                           // the first one is written last but one instead of in the middle
+	root       *hackpadfs.FileMode            // permission bits of an explicit entry for the root itself, if there is one
 }
 
 // normName is the spec's own normalisation: drop empty and '.' elements.
@@ -229,12 +231,26 @@ func (sp *tarSpec) archive(t *T) []byte {
 		_, err := w.Write(e.data)
 		must(t, err)
 	}
-	for i, e := range sp.entries {
-		if sp.escape != "" && i == len(sp.entries)/2 {
+	writeEscape := func() {
+		if strings.HasSuffix(sp.escape, "/") {
+			must(t, w.WriteHeader(&tar.Header{Name: sp.escape, Typeflag: tar.TypeDir, Mode: 0755}))
+		} else {
 			must(t, w.WriteHeader(&tar.Header{Name: sp.escape, Typeflag: tar.TypeReg, Mode: 0644, Size: 3}))
 			w.Write([]byte("esc"))
 		}
+	}
+	for i, e := range sp.entries {
+		if sp.escape != "" && !sp.escapeLate && i == len(sp.entries)/2 {
+			writeEscape()
+		}
 		write(e)
+	}
+	if sp.escape != "" && sp.escapeLate {
+		writeEscape()
+	}
+	if sp.escape2 != "" {
+		must(t, w.WriteHeader(&tar.Header{Name: sp.escape2, Typeflag: tar.TypeReg, Mode: 0644, Size: 3}))
+		w.Write([]byte("esc"))
 	}
 	must(t, w.Close())
 	return buf.Bytes()
@@ -284,7 +300,9 @@ func buildTarDest(t *T, kind int) *tarDest {
 func tarKnobs(t *T) (small, big int) {
 	c := t.C
 	small = []int{1024, 512, 2048}[c.Draw(3)]
-	big = []int{2048, 1024, 4096}[c.Draw(3)]
+	// the big buffer is larger than the small one by a fair factor, as the real constants are (4 MiB against 150 KiB):
+	// a relation between constants that code may rely on is not a knob
+	big = small * []int{4, 8, 3}[c.Draw(3)]
 	nsmall := 1 + c.Draw(3)
 	cur.knobs["smallBufMemory"] = uint64(small)
 	cur.knobs["bigBufMemory"] = uint64(big)
@@ -350,11 +368,27 @@ func runC12(t *T) {
 	sp := genTarSpec(t, small, big, 8)
 	if c.Chance(1, 8) {
 		sp.escape = []string{"../x", "a/../../x", "../../etc/x", "a/b/../../../x"}[c.Draw(4)]
+		dotdot := c.Chance(1, 3)
+		if dotdot {
+			// a name that resolves to the parent of the root itself: its own parent is the root, so nothing refuses
+			// it before the entry itself is made (in the background, for a small entry)
+			sp.escape = []string{"..", "./..", "a/../..", "../"}[c.Draw(4)]
+		}
+		if c.Chance(1, 2) {
+			// one more, at the end of the archive; preferably of the same kind, and the first one right in front of it
+			// (two refusals that both arrive after the reader has looked for errors the last time)
+			sp.escape2 = []string{"..", "../y/x", "./..", "b/../../x"}[c.Draw(4)]
+			sp.escapeLate = c.Chance(1, 2)
+			if dotdot && c.Chance(3, 4) {
+				sp.escape2 = []string{"..", "./..", "b/../.."}[c.Draw(3)]
+				sp.escapeLate = c.Chance(3, 4)
+			}
+		}
 	}
 	destKind := c.Draw(3)
 	chunk := []int{512, 4096, 100, 1024, 7}[c.Draw(5)]
 	data := sp.archive(t)
-	t.Logf("small=%d big=%d pool=%d chunk=%d escape=%q archive: %s", small, big, (cur.knobs["maxMemory"]-2*uint64(big))/uint64(small), chunk, sp.escape, sp.describe())
+	t.Logf("small=%d big=%d pool=%d chunk=%d escape=%q,%q archive: %s", small, big, (cur.knobs["maxMemory"]-2*uint64(big))/uint64(small), chunk, sp.escape, sp.escape2, sp.describe())
 	var rfs *htar.ReaderFS
 	var dest *tarDest
 	finished := false
